@@ -62,6 +62,13 @@ def main(pid, tier="quick", seed=0, jobs=None, only=None, write_baseline=False):
     side = []
     if hasattr(mod, "side_conditions"):
         side = mod.side_conditions()
+    conf_n, conf_bad = 0, []
+    if getattr(mod, "USES_LIBRARY_MODELS", True):
+        try:
+            from . import conformance
+            conf_n, conf_bad = conformance.run(seed, n_rounds=1)
+        except Exception as e:  # noqa
+            conf_bad = [f"conformance harness crashed: {type(e).__name__}: {e}"]
     structs = mod.structures(tier, seed)
     if only:
         structs = [s for s in structs if re.search(only, s["sid"])]
@@ -187,6 +194,8 @@ def main(pid, tier="quick", seed=0, jobs=None, only=None, write_baseline=False):
         broken.append(f"{len(crashes)} structure(s) crashed: " + "; ".join(f"{s}: {c}" for s, c, _ in crashes[:3]))
     if canary_bad:
         broken.append("canary not refuted: " + "; ".join(canary_bad[:3]))
+    if conf_bad:
+        broken.append("library model does not conform to the real library: " + "; ".join(conf_bad[:3]))
     need_cov = getattr(mod, "REQUIRED_COVERS", [])
     for cv in need_cov:
         if covers.get(cv, 0) == 0:
@@ -228,6 +237,7 @@ def main(pid, tier="quick", seed=0, jobs=None, only=None, write_baseline=False):
             "failed": [o["id"] for o in failed][:50],
             "unknown": [o["id"] for o in unknown][:50],
             "known_findings_matched": [h.get("id", h["obligation_pattern"]) for h, _ in known_hits][:50],
+            "conformance_samples": conf_n,
             "canaries_total": canary_total,
             "canaries_refuted": canary_refuted,
             "covers": covers,
